@@ -616,26 +616,28 @@ class _Draws:
         np.random.normal, np.random.multivariate_normal = self.saved
 
 
-def x_run(prog, spec, draw=None, **run_kw):
+def x_run(prog, spec, draw=None, free=None, **run_kw):
     """-> (observable arrays, samples, register values)"""
     backend = spec["backend"]
     eng = sf.Engine(backend, backend_options={"cutoff_dim": spec.get("cutoff", X_CUTOFF)} if backend == "fock" else {})
     import warnings
     with warnings.catch_warnings(), _Draws(spec.get("draw", 0.3) if draw is None else draw):
         warnings.simplefilter("ignore")
-        res = eng.run(prog, args=dict(spec.get("free", {})), **run_kw)
+        res = eng.run(prog, args=dict(spec.get("free", {}) if free is None else free), **run_kw)
     st = res.state
     if backend == "fock":
         obs = (np.asarray(st.dm()), float(np.real(st.trace())))
     else:
         obs = bc.gauss_obs(st)
     smp = None if res.samples is None else np.asarray(res.samples, dtype=complex)
-    return obs, smp
+    # every measurement that was executed, per mode (a dropped or duplicated measurement shows here even when the state does not change)
+    per_mode = {int(k): [complex(np.ravel(x)[0]) for x in v] for k, v in (getattr(res, "samples_dict", None) or {}).items()}
+    return obs, (smp, per_mode)
 
 
 def x_close(spec, a, b):
     """None if the two run results agree, else a short text."""
-    (o1, s1), (o2, s2) = a, b
+    (o1, (s1, d1)), (o2, (s2, d2)) = a, b
     if spec["backend"] == "fock":
         if o1[0].shape != o2[0].shape:
             return "different numbers of modes"
@@ -652,6 +654,8 @@ def x_close(spec, a, b):
             return "means / covariance differ by %.3g" % d
     if (s1 is None) != (s2 is None) or (s1 is not None and (s1.shape != s2.shape or (s1.size and float(np.abs(s1 - s2).max()) > 1e-6))):
         return "measurement samples differ: %s vs %s" % (None if s1 is None else s1.tolist(), None if s2 is None else s2.tolist())
+    if sorted(d1) != sorted(d2) or any(len(d1[k]) != len(d2[k]) or any(abs(x - y) > 1e-6 for x, y in zip(d1[k], d2[k])) for k in d1):
+        return "the measurements executed per mode differ: %s vs %s" % (d1, d2)
     return None
 
 
@@ -739,7 +743,8 @@ def x_check(spec):
             fresh = x_build(spec)      # never optimised: the reference
             prog = x_build(spec)
             if route == "ran":
-                x_run(prog, spec, draw=spec.get("draw0", -0.7))
+                # an earlier run with OTHER measurement outcomes and OTHER values of the free parameters: nothing of it may survive in the optimised copy
+                x_run(prog, spec, draw=spec.get("draw0", -0.7), free={k: v + 0.17 for k, v in spec.get("free", {}).items()})
         except Exception:
             return None, "the unoptimised program cannot be built / run", False   # (a generator slip, e.g. a post-selected outcome of probability zero)
         tag = route.replace("compile:", "compile-optimize:")
@@ -1285,10 +1290,14 @@ def search_extended(ctx):
     # 1. same-family pairs: family x relation x dagger flags, in a context
     for backend, keep in (("gaussian", 1.0), ("fock", ctx.budget(0.12, 1.0)), ("bosonic", ctx.budget(0.08, 0.5))):
         for two, tag, pair in x_pair_sweep(backend) + x_channel_sweep(backend):
+            if quick and backend == "gaussian":
+                # one context in which the pair is adjacent, through plain optimize() (in the compile routes matrix operations are decomposed first) ...
+                x_judge(ctx, finish(x_wrap(pair, two, rng.choice(["plain", "rev", "apart", "del", "new", "high"]), backend), backend, "opt"), "x-pair/%s/%s" % (backend, tag.split(":")[0]), tag)
             for ctxname in ([pick_ctx(rng, backend)] if quick else CTXS):
-                if rng.random() > keep:
+                # ... and any context / route
+                if rng.random() > keep and not tag.startswith("MSgate"):
                     continue
-                x_judge(ctx, finish(x_wrap(pair, two, ctxname, backend), backend), "x-pair/%s/%s" % (backend, tag.split(":")[0]))
+                x_judge(ctx, finish(x_wrap(pair, two, ctxname, backend), backend), "x-pair/%s/%s" % (backend, tag.split(":")[0]), tag)
     # 2. cross-family ordered pairs of single-mode commands (only preparations absorb, nothing else may merge)
     # (every ordered pair of gates / channels / matrix operations on the Gaussian backend; a sample of the pairs involving preparations and measurements)
     tunits = [u for u in x_units("gaussian") if not hasattr(getattr(ops, u[0]), "select") and not issubclass(getattr(ops, u[0]), (ops.Preparation, ops.Measurement))]
@@ -1306,15 +1315,16 @@ def search_extended(ctx):
     # 3. symbolic parameters
     sym = x_symbolic_sweep()
     for two, tag, pair in (rng.sample(sym, ctx.budget(70, len(sym))) if quick else sym):
-        spec = finish(x_wrap(pair, two, rng.choice(CTXS), "gaussian"), "gaussian")
+        spec = finish(x_wrap(pair, two, rng.choice(CTXS), "gaussian"), "gaussian", rng.choice(["opt", "ran", "ran", "opt2", "engine", "compile:gaussian", "compiled-then-opt"]))
         spec["free"] = {"x": rng.choice([0.3, 0.55, 0.2]), "y": rng.choice([0.7, 0.45])}
-        x_judge(ctx, spec, "x-free/" + tag.split(":")[0])
+        x_judge(ctx, spec, "x-free/" + tag.split(":")[0], tag)
     ms = x_measured_sweep()
     if quick:
         # every channel item (few) and a sample of the gate items
         ms = [it for it in ms if "Channel" in it[0]] + rng.sample([it for it in ms if "Channel" not in it[0]], 56)
     for item in ms:
-        x_judge(ctx, finish(x_measured_spec(item), "gaussian"), "x-measured/" + item[-1].split(":")[0])
+        # (half of the cases: the program has run before, with another outcome when the measurement is not post-selected)
+        x_judge(ctx, finish(x_measured_spec(item), "gaussian", "ran" if rng.random() < 0.5 else None), "x-measured/" + item[-1].split(":")[0], item[-1])
     # 4. random programs
     for backend, cnt in (("gaussian", ctx.budget(80, 900)), ("fock", ctx.budget(16, 300)), ("bosonic", ctx.budget(10, 120))):
         for _ in range(cnt):
